@@ -1184,7 +1184,7 @@ v("d162-xor-delegates-to-other", "C24", OSF, "        other = OrderedSet(other)\
 v("d162-xor-twin-ordered-helpers", "C24", OSF, "        return OrderedSet(\n            [e for e in self if e not in other] + [e for e in other if e not in self]\n        )\n", "        left = [e for e in self if e not in other]\n        right = [e for e in other if e not in self]\n        return OrderedSet(left + right)\n", expect="silent")
 
 v("d163-generic-mod-truncates", "C05", SM, "    return f\"MOD(MOD({e0}, {e1}) + {e1p}, {e1})\"", "    return f\"MOD({e0}, {e1})\"")
-v("d163-generic-mod-floored-form-twin", "C05", SM, "    return f\"MOD(MOD({e0}, {e1}) + {e1p}, {e1})\"", "    return f\"({e0} - FLOOR({e0} / (1.0 * {e1p})) * {e1p})\"", expect="silent")
+v("d163-generic-mod-floored-form-twin", "C05", SM, "    return f\"MOD(MOD({e0}, {e1}) + {e1p}, {e1})\"", "    return f\"(({e0}) - FLOOR(({e0}) / (1.0 * {e1p})) * {e1p})\"", expect="silent")
 v("d163-generic-remainder-truncates", "C05", SM, "    return f\"({e0} - FLOOR({e0} / (1.0 * {e1})) * {e1})\"", "    return f\"MOD({e0}, {e1})\"")
 v("d163-generic-mod-truncates-c02", "C02", SM, "    return f\"MOD(MOD({e0}, {e1}) + {e1p}, {e1})\"", "    return f\"MOD({e0}, {e1})\"")
 v("d164-is-in-missing-is-member", "C05", PB, "        return numpy.asarray(a.isin(b), dtype=bool) & numpy.asarray(a.notna(), dtype=bool)\n", "        return numpy.asarray(a.isin(b), dtype=bool)\n")
@@ -1194,3 +1194,12 @@ v("d167-sqlite-mod-sum-overflows", "C05", SQ, " THEN (({e0} % {e1}) + (CASE WHEN
 v("d168-xor-takes-non-iterable", "C24", OSF, "        if not isinstance(other, Iterable):\n            return NotImplemented\n        other = OrderedSet(other)\n        return OrderedSet(\n", "        other = OrderedSet(other)\n        return OrderedSet(\n")
 v("d169-list-item-array-for-scalar", "C12", ER2, "                and (vi.dtype.kind in \"biuf\")\n                and (not hasattr(vi, \"__len__\"))\n            ):\n                vi = vi.item()  # a numpy number (not an array or a column)", "                and (vi.dtype.kind in \"biuf\")\n            ):\n                vi = vi.item()  # a numpy number (not an array or a column)")
 v("d170-category-cells-not-in-key", "C25", ECF, "        + [hashlib.sha256(d.iloc[:, j].cat.codes.to_numpy().tobytes()).hexdigest()]\n", "")
+
+# rules written after the sixth seeding round
+v("c22-switch-read-when-decorating", "C22", DS, "        type_check_self = self\n", "        if not SchemaCheckSwitch().is_on():\n            return type_check_fn\n        type_check_self = self\n")
+v("c06-merge-partition-subset", "C06", VR, "            compatible_partition = (partition_by == self.partition_by) or (", "            compatible_partition = (set(partition_by if partition_by != 1 else []) <= set(self.partition_by if self.partition_by != 1 else [])) or (")
+v("c09-merge-partition-subset", "C09", VR, "            compatible_partition = (partition_by == self.partition_by) or (", "            compatible_partition = (set(partition_by if partition_by != 1 else []) <= set(self.partition_by if self.partition_by != 1 else [])) or (")
+v("c08-drop-attached-to-grand-source", "C08", VR, "        if len(remaining_columns) < 1:\n            raise ValueError(\"can not drop all columns\")\n", "        if len(remaining_columns) < 1:\n            raise ValueError(\"can not drop all columns\")\n        if isinstance(source, SelectColumnsNode):\n            source = source.sources[0]\n")
+v("c05-remainder-operand-bare", "C05", SM, "    e0 = dbmodel.expr_to_sql(expression.args[0], want_inline_parens=True)\n    e1 = dbmodel.expr_to_sql(expression.args[1], want_inline_parens=True)\n    return f\"({e0} - FLOOR(", "    e0 = dbmodel.expr_to_sql(expression.args[0], want_inline_parens=False)\n    e1 = dbmodel.expr_to_sql(expression.args[1], want_inline_parens=True)\n    return f\"({e0} - FLOOR(")
+v("c27-sort-skipped-when-monotonic", "C27", PB, "            if len(order_cols) > 0:\n                # order by partition and order columns only", "            if not subframe[order_cols].apply(tuple, axis=1).is_monotonic_increasing:\n                # order by partition and order columns only")
+v("c18-sort-skipped-when-monotonic", "C18", PB, "            if len(order_cols) > 0:\n                # order by partition and order columns only", "            if not subframe[order_cols].apply(tuple, axis=1).is_monotonic_increasing:\n                # order by partition and order columns only")
